@@ -230,7 +230,11 @@ namespace ip {
 			m_forwarder.reset();
 		}
 
-		// reset socket state
+		// reset socket state. Nothing received or queued for (re)sending on this
+		// connection may show up on the next one this socket object is used for
+		m_incoming_queue.clear();
+		m_reorder_buffer.clear();
+		m_outgoing_packets.clear();
 		m_queue_size = 0;
 		m_mss = 1475;
 		m_cwnd = m_mss * 2;
